@@ -83,8 +83,23 @@ def resolve(spec):
     return code
 
 
+CURRENT = None
+
+
+def add_external(co_name, line):
+    """lines executed in a forked child (C15's scheduled processes report them with their result)"""
+    c = CURRENT
+    if c is None:
+        return
+    for spec in c.hits:
+        if spec.rsplit(".", 1)[-1] == co_name:
+            c.hits[spec].add(line)
+
+
 class Coverage:
     def __init__(self, prop):
+        global CURRENT
+        CURRENT = self
         self.codes = {}
         self.hits = {}
         self.errors = []
